@@ -45,12 +45,14 @@ def run(repo, report, tier):
     report.guard("C01.R1", "flags", r1_flags, repo, report)
     report.guard("C01.R1", "anchored adapters", r1_anchored_full_length, repo, report)
     report.guard("C01.R1", "minimum overlap of an adapter", r1_min_overlap_clamp, repo, report)
+    report.guard("C01.R1", "aligner and comparer construction", r1_search_object_arguments, repo, report)
     report.guard("C01.R2", "Aligner.locate", r2_r3_acceptance, repo, report)
     report.guard("C01.R4", "Aligner._set_reference", r4_prefix_sums, repo, report)
     report.guard("C01.R5", "DP cell", r5_cell, repo, report)
     report.guard("C01.R5", "first DP column", r5_first_column, repo, report)
     report.guard("C01.R6", "comparers", r6_comparers, repo, report)
     report.guard("C01.R7", "result tuple", r7_tuple, repo, report)
+    report.guard("C01.R7", "best-match record", r7_record_complete, repo, report)
     report.guard("C01.R8", "match tables", r8_tables, repo, report)
     report.notes.append("Not decided: that the DP, with these ingredients, yields the true edit distance and an optimal score for every read (quantifies over runtime values); containment of origin-derived coordinates in the read (a DP invariant). Cross-reference (cython -Wextra): the last-column candidate test compares the stale 'origin' of the column loop instead of column[i].origin; it affects which acceptable candidate is kept, not acceptability - shown in the evidence of C01.R2, not armed.")
 
@@ -717,6 +719,10 @@ def r7_tuple(repo, report):
                 if k == "None" and v.get("isnone:AL") is False and v.get("truthy:KP") is not False:
                     ok = False
                     bad.append("returns None although an alignment was found")
+                if k == "None" and "isnone:AL" not in v and v.get("truthy:KP") is not False:
+                    ok = False
+                    extra = sorted(a for a in v if a not in ("isnone:AL", "truthy:KP", "truthy:self._debug"))
+                    bad.append(f"returns None without asking the aligner (path condition {extra[:2]}): the aligner alone decides whether an occurrence within the tolerance exists, e.g. an anchored adapter minus one deleted base in a read shorter than the adapter")
                 if k.startswith("Remove") and v.get("isnone:AL") is not False:
                     ok = False
         report.ob("C01.R7", f"{cname}.match_to: match built from the alignment", bool(ok), facts={"searched": {k: sorted(v) for k, v in seen.items()}, "returns": sorted(outs)},
@@ -966,3 +972,67 @@ def r5_first_column(repo, report):
     report.ob("C01.R5", "Aligner.locate: first DP column", not bad and n >= 8, facts={"paths": n, "problems": bad[:3]}, cases=n, loc=repo.loc(frag[0]),
               expected="score 0 iff the adapter's start may be skipped, else i * deletion score; cost/origin per the four documented cases",
               why=(f"with start_in_reference={bad[0].get('start_in_reference')}, start_in_query={bad[0].get('start_in_query')} cell i gets {bad[0].get('field')} = {bad[0].get('stored')}, expected {bad[0].get('expected one of')}: skipped adapter bases are not charged (or charged although free), so scores of partial matches at the read start are wrong" if bad else ""))
+
+
+def r1_search_object_arguments(repo, report):
+    """Every Aligner / PrefixComparer / SuffixComparer an adapter builds gets the adapter's own configuration in the right
+    parameters: wildcard_ref <- adapter_wildcards (the adapter is the reference), wildcard_query <- read_wildcards,
+    max_error_rate, min_overlap.  Arguments are resolved against the constructors' parameter lists, so it does not matter
+    whether they are written positionally or by keyword."""
+    want = {"wildcard_ref": "self.adapter_wildcards", "wildcard_query": "self.read_wildcards", "max_error_rate": "self.max_error_rate", "min_overlap": "self.min_overlap"}
+    sigs = {}
+    for cname in ("Aligner", "PrefixComparer", "SuffixComparer"):
+        for k in repo.mro(cname):
+            ctor = k.methods.get("__cinit__") or k.methods.get("__init__")
+            if ctor is not None:
+                sigs[cname] = params(ctor)[1:]
+                break
+    if len(sigs) != 3:
+        raise Unrecognised(f"constructors of Aligner/PrefixComparer/SuffixComparer not found ({sorted(sigs)})")
+    mod = repo.module("adapters")
+    n = 0
+    for cls in repo.subclasses("SingleAdapter") + [repo.cls("SingleAdapter")]:
+        for mname, fn in cls.methods.items():
+            for c_ in [x for x in ast.walk(fn) if isinstance(x, ast.Call) and chain(x.func) in sigs]:
+                ps_ = sigs[chain(c_.func)]
+                got = {}
+                for i, a in enumerate(c_.args):
+                    if i < len(ps_):
+                        got[ps_[i]] = src(a)
+                for k in c_.keywords:
+                    if k.arg is not None:
+                        got[k.arg] = src(k.value)
+                n += 1
+                wrong = {p_: got.get(p_) for p_, v in want.items() if p_ in ps_ and got.get(p_) != v}
+                report.ob("C01.R1", f"{cls.name}.{mname}: {chain(c_.func)}(...) receives the adapter's own settings", not wrong, facts={"arguments": got, "wrong": wrong}, loc=repo.loc(c_),
+                          expected=", ".join(f"{k}={v}" for k, v in want.items()),
+                          why=(f"{next(iter(wrong))} = {wrong[next(iter(wrong))]}: the search object treats wildcards / tolerance / overlap differently from what the adapter was configured with, so reported error counts are not distances under the configured rules" if wrong else ""))
+    report.floor("C01.R1", "aligner/comparer constructions", n, 3)
+
+
+def r7_record_complete(repo, report):
+    """The best match is a record of several fields (score, cost, origin, ref_stop, query_stop).  Wherever a candidate
+    replaces it, ALL fields are assigned in the same block - a field left out keeps the value of the candidate that was
+    replaced (e.g. the read stop of an earlier full match under the coordinates of a later partial one)."""
+    c, fn = repo.need_method("Aligner", "locate")
+    sites = {}
+    for n in ast.walk(fn):
+        if isinstance(n, ast.Assign) and isinstance(n.targets[0], ast.Attribute) and isinstance(n.targets[0].value, ast.Name):
+            par = getattr(n, "_parent", None)
+            key = (n.targets[0].value.id, id(par))
+            sites.setdefault(key, {"fields": set(), "line": n.lineno, "parent": par})
+            sites[key]["fields"].add(n.targets[0].attr)
+    by_record = {}
+    for (rec, _), info in sites.items():
+        by_record.setdefault(rec, []).append(info)
+    # the record in question: the one whose fields are read by the return statement(s)
+    ret_names = {x.value.id for r_ in ast.walk(fn) if isinstance(r_, ast.Return) and r_.value is not None for x in ast.walk(r_.value) if isinstance(x, ast.Attribute) and isinstance(x.value, ast.Name)}
+    cands = [rec for rec, lst in by_record.items() if rec in ret_names and len(lst) >= 2]
+    if len(cands) != 1:
+        raise Unrecognised(f"Aligner.locate: the best-match record was not identified ({sorted(cands)})", repo.loc(fn))
+    rec = cands[0]
+    allf = set().union(*[i["fields"] for i in by_record[rec]])
+    bad = [{"line": i["line"], "missing": sorted(allf - i["fields"])} for i in by_record[rec] if i["fields"] != allf]
+    report.ob("C01.R7", f"Aligner.locate: every update of '{rec}' assigns all of its fields", not bad and len(allf) >= 5 and len(by_record[rec]) >= 3, facts={"fields": sorted(allf), "sites": len(by_record[rec]), "incomplete": bad}, loc=repo.loc(fn),
+              expected="initialisation, the last-row update and the last-column update each assign score, cost, origin, ref_stop and query_stop",
+              why=(f"the update at line {bad[0]['line']} leaves {bad[0]['missing']} as it was: the reported match mixes the coordinates of two different candidates" if bad else ""))
